@@ -50,6 +50,7 @@ use eval::{EvalError, Evaluator, resolve_const_type};
 use literal::Literal;
 use parse::ParseError;
 use scan::{ScanError, scan};
+#[cfg(not(feature = "verif_hooks"))]
 use std::{
     collections::HashMap,
     fmt::{Display, Write as _},
@@ -57,6 +58,15 @@ use std::{
     path::Path,
 };
 use token::MetaInfo;
+#[cfg(feature = "verif_hooks")]
+use {
+    crate::verif_hooks::HashMap,
+    std::{
+        fmt::{Display, Write as _},
+        mem,
+        path::Path,
+    },
+};
 
 #[cfg(feature = "serde")]
 use serde::{Deserialize, Serialize};
